@@ -425,8 +425,14 @@ func (g *gen) cardinal() *big.Int {
 		z.SetInt64(int64(g.r.Intn(1000)))
 	case x < 40:
 		z.SetInt64(int64(g.r.Intn(1000000)))
-	case x < 50: // k * 10^e
+	case x < 47: // k * 10^e
 		z.Mul(big.NewInt(int64(1+g.r.Intn(999))), pow10[g.r.Intn(67)])
+	case x < 50: // around the limits of the fixnum representation (2^63) and of the narrower widths, both sides
+		z.Lsh(big.NewInt(1), uint(common.Pick(g.r, []int{31, 32, 63, 63, 63, 64})))
+		z.Add(z, big.NewInt(int64(g.r.Intn(5)-2)))
+		if g.r.Chance(50) {
+			z.Neg(z)
+		}
 	default: // random groups, some of them zero or round
 		n := 1 + g.r.Intn(23)
 		for i := 0; i < n; i++ {
@@ -1127,6 +1133,10 @@ func Run(ctx *common.Ctx) {
 	for _, p := range paramOrderSweep() {
 		add("parameter-order", p)
 	}
+	// 2c. the limits of the fixnum / bignum representations and of the machine widths under every integer-rendering directive
+	for _, p := range limitSweep() {
+		add("representation-limits", p)
+	}
 	// 3. integer directives
 	for i := 0; i < nInt; i++ {
 		p := g.intDir(nil)
@@ -1152,7 +1162,7 @@ func Run(ctx *common.Ctx) {
 	// 7. ~A = princ, ~S = prin1 on the implementation alone, for a wider universe of objects
 	printerAgreement(ctx, g, nPrint)
 
-	ctx.Meta.Rule = "control strings: (1) a fixed corpus of rare shapes; (2) one ~R / ~:R / ~@R / ~:@R per entry of the word tables; (2b) ~A ~D ~T with every assignment of literal / v / # to their numeric parameters and 0..2 surplus arguments; (3) ~D ~B ~O ~X ~nR with random subsets of mincol, padchar, commachar, comma-interval given literally, by v or by #, all modifier combinations, integers of 1..40 digits incl. 0, powers of ten and two +-1 and the fixnum limits, a few non-integers; (4) ~R words for numbers up to 10^69 with zero and round groups, Roman 1..3999 and the limits; (5) ~A ~S with mincol, colinc, minpad, padchar; (6) sequences of 1..4 directives (all of ~A ~S ~D ~B ~O ~X ~R ~C ~% ~& ~~ ~T ~* ~P ~( ~[ ~{ ~? ~^, blocks nested to depth 2, lists of 0..4 elements, nested lists for ~:{, missing and surplus arguments, the same integer re-read through ~:* ~@* by a second integer directive) with literal text between; after every call the arguments, bound to variables, are printed again and must be unchanged; every control string is run with destination nil, t and a string stream; distinct = distinct (control, arguments)"
+	ctx.Meta.Rule = "control strings: (1) a fixed corpus of rare shapes; (2) one ~R / ~:R / ~@R / ~:@R per entry of the word tables; (2b) ~A ~D ~T with every assignment of literal / v / # to their numeric parameters and 0..2 surplus arguments; (2c) every limit 2^k (k = 31 32 53 63 64) of the fixnum / bignum representation and of the machine widths, +-1 (+-2 at 2^63), both signs, under ~R ~:R ~@R ~:@R ~D ~B ~O ~X ~nR with and without modifiers and parameters, ~A ~P — enumerated, the same on every run; (3) ~D ~B ~O ~X ~nR with random subsets of mincol, padchar, commachar, comma-interval given literally, by v or by #, all modifier combinations, integers of 1..40 digits incl. 0, powers of ten and two +-1 and the fixnum limits, a few non-integers; (4) ~R words for numbers up to 10^69 with zero and round groups, Roman 1..3999 and the limits; (5) ~A ~S with mincol, colinc, minpad, padchar; (6) sequences of 1..4 directives (all of ~A ~S ~D ~B ~O ~X ~R ~C ~% ~& ~~ ~T ~* ~P ~( ~[ ~{ ~? ~^, blocks nested to depth 2, lists of 0..4 elements, nested lists for ~:{, missing and surplus arguments, the same integer re-read through ~:* ~@* by a second integer directive) with literal text between; after every call the arguments, bound to variables, are printed again and must be unchanged; every control string is run with destination nil, t and a string stream; distinct = distinct (control, arguments)"
 	header := "From C15 Require Import Interp Corr.\nFrom GenC15 Require Import Tables.\nOpen Scope string_scope.\n"
 	footer := "Definition res := Eval vm_compute in check_all gen_tables cases.\nPrint res.\n" +
 		"Definition in_guard := Eval vm_compute in guard_count gen_tables cases.\nPrint in_guard.\n" +
